@@ -25,6 +25,7 @@ type Env struct {
 	now     *State // the current state while evaluating inside old()
 	specFile string // contract file of the clause being evaluated (for type names)
 	visLoc, visHeap string // ghost visited set of the enclosing range-over-map loop
+	addrOf func(name string) (Val, bool) // address of a cell-backed local variable
 }
 
 func (e *Env) clone() *Env {
@@ -78,6 +79,18 @@ func (f *frame) baseEnv(st *State) *Env {
 	}
 	if f.spec != nil {
 		env.specFile = f.spec.File
+	}
+	env.addrOf = func(name string) (Val, bool) {
+		for _, b := range f.fn.Blocks {
+			for _, ins := range b.Instrs {
+				if a, ok := ins.(*ssa.Alloc); ok && a.Comment == name {
+					if v, done := f.vals[a]; done {
+						return Val{T: v.T, Typ: a.Type()}, true
+					}
+				}
+			}
+		}
+		return Val{}, false
 	}
 	if f.top && f.spec != nil {
 		// let-bound names denote entry-state values
@@ -647,6 +660,14 @@ func (vc *VC) evalSpecCall(env *Env, x *SCall) Val {
 			return Val{T: vc.mapLen(env.st, v), Typ: intT}
 		}
 		return vc.specErr("len of %s", v.Typ)
+	case "addr":
+		// addr(x): the address of the local variable x (a variable that lives in a memory cell)
+		if id, ok := x.Args[0].(*SIdent); ok && env.addrOf != nil {
+			if v, ok := env.addrOf(id.Name); ok {
+				return v
+			}
+		}
+		return vc.specErr("addr(x): x is not a cell-backed local variable here")
 	case "visited":
 		// visited(k): key k has already been yielded by the map iteration of the
 		// loop whose invariant is being evaluated
@@ -902,6 +923,27 @@ func (vc *VC) assignPats(env *Env, cs []*Clause) []modPat {
 					pats = append(pats, mp)
 				}
 				continue
+			}
+		}
+		if call, isCall := c.Expr.(*SCall); isCall && call.Fun == "allfields" && len(call.Args) == 1 {
+			// allfields(T): every field of every T in memory (type-level frame)
+			var tn string
+			switch a := call.Args[0].(type) {
+			case *SIdent:
+				tn = a.Name
+			case *SStr:
+				tn = a.V
+			}
+			if t := vc.resolveTypeAt(env, c.File, tn); t != nil {
+				if st, isS := t.Underlying().(*types.Struct); isS {
+					for i := 0; i < st.NumFields(); i++ {
+						fid := vc.sorts.FieldID(t, i)
+						for _, lf := range vc.leaves(st.Field(i).Type()) {
+							pats = append(pats, modPat{sort: lf.sort, steps: append([]step{{fld: fid}}, lf.steps...)})
+						}
+					}
+					continue
+				}
 			}
 		}
 		loc, t, steps, ok := vc.specAddr(env, c.Expr)
